@@ -37,6 +37,34 @@ pub fn trunc_full<C: Case, const N: usize, const S: usize>() {
     }
 }
 
+/// Full-copy through the blanket `impl<R: io::Read> ReadNoStd for R` (a byte
+/// slice as `io::Read`), value written at start residue PRE so that cut points
+/// fall inside alignment padding (also trailing padding of an empty sequence).
+pub fn trunc_full_io<C: Case, const N: usize, const S: usize, const PRE: usize>() {
+    let x = C::make(S);
+    let mut s = Sink::<N>::new();
+    let n;
+    {
+        let mut w = WriterWithPos::new(&mut s);
+        if PRE > 0 { assert!(epserde::ser::WriteNoStd::write_all(&mut w, &[0xAA; PRE]).is_ok(), "HARNESS: prefix fits"); }
+        let r = SerializeInner::_serialize_inner(&x, &mut w);
+        assert!(r.is_ok(), "HARNESS: serialization succeeds");
+        n = w.pos();
+    }
+    let k: usize = any();
+    assume(k >= PRE && k < n);
+    let mut rd: &[u8] = &s.buf[..k];
+    let mut rp = ReaderWithPos::new(&mut rd);
+    let mut skip = [0u8; PRE];
+    assert!(epserde::deser::ReadNoStd::read_exact(&mut rp, &mut skip).is_ok(), "HARNESS: prefix readable");
+    let r = <C::T>::_deserialize_full_inner(&mut rp);
+    match r {
+        Ok(v) => { core::mem::forget(v); assert!(false, "C11: a strict prefix was deserialized into a value (full-copy over io::Read)"); }
+        Err(DE::ReadError) => { crate::cover!(true, "ReadError on a truncated stream"); }
+        Err(e) => { core::mem::forget(e); assert!(false, "C11: full-copy of a truncated stream returns a read error"); }
+    }
+}
+
 /// ε-copy on the exact prefix.  The result must not be Ok; panics located in
 /// slice indexing / bounds checks are failed checks that the driver tolerates.
 pub fn trunc_eps<C: Case, const N: usize, const S: usize>() {
@@ -121,6 +149,14 @@ tr!(
     c11_full_zeros = trunc_full::<ZeroSC, 16, 0> @ 6;
     c11_full_e5 = trunc_full::<E5C, 48, 0> @ 6;
     c11_full_optvec = trunc_full::<OptVecU16, 32, 0> @ 5;
+    c11_io_vecu64_p1 = trunc_full_io::<VecU64, 48, 0, 1> @ 12;
+    c11_io_vecu32_p3 = trunc_full_io::<VecU32, 32, 0, 3> @ 8;
+    c11_io_boxu32_p1 = trunc_full_io::<BoxU32, 32, 0, 1> @ 8;
+    c11_io_arru32x0_p1 = trunc_full_io::<ArrU32x0, 16, 0, 1> @ 8;
+    c11_io_zeros_p1 = trunc_full_io::<ZeroSC, 16, 0, 1> @ 8;
+    c11_io_deeps_p1 = trunc_full_io::<DeepSVec, 32, 0, 1> @ 8;
+    c11_io_vecvec_p1 = trunc_full_io::<VecVecU16, 48, 4, 1> @ 8;
+    c11_io_str_p0 = trunc_full_io::<Str, 32, 5, 0> @ 12;
     c11_eps_u32 = trunc_eps::<U32, 16, 0> @ 4;
     c11_eps_bool = trunc_eps::<Bool, 16, 0> @ 4;
     c11_eps_char = trunc_eps::<Char, 16, 0> @ 4;
